@@ -532,6 +532,9 @@ func (s *Server) handleRequest(ctx context.Context, req *Request) (*response, ht
 			"Method not found in request",
 			zap.String("method", log.SanitizeString(req.Method)),
 		)
+		if req.ID == nil { // notification: the server must not reply, not even with an error
+			return nil, header, nil
+		}
 		return res, header, nil
 	}
 
@@ -541,6 +544,9 @@ func (s *Server) handleRequest(ctx context.Context, req *Request) (*response, ht
 	if err != nil {
 		res.Error = Err(InvalidParams, err.Error())
 		s.logger.Trace("Error building arguments for RPC call", zap.Error(err))
+		if req.ID == nil { // notification: the server must not reply, not even with an error
+			return nil, header, nil
+		}
 		return res, header, nil
 	}
 	defer func() {
